@@ -777,6 +777,31 @@ func runV1Chain(b *harness.B) {
 			b.Count("v1_renewals_checked", 1)
 			ops = append(ops, vc2.ctor)
 		}
+		// a renewal asked for when the chain has reached the contract's window start, ending at the host's current
+		// height: the renewed window would start in a block that exists already. Refused, or valid - not built and
+		// then rejected by consensus.
+		if gap := int64(rev.FileContract.WindowStart) - int64(c.cs.Index.Height); r.IntN(5) == 0 && gap >= 0 && gap <= 45 {
+			okChain := true
+			for i := int64(0); i < gap && okChain; i++ {
+				_, err := c.mine(nil, nil, nil, types.SiacoinOutputID{})
+				okChain = err == nil
+			}
+			if okChain && c.cs.Index.Height == rev.FileContract.WindowStart {
+				tip := c.cs.Index.Height
+				t3 := toBig(randCurrency(r, 8+r.IntN(60)))
+				if t3.Sign() == 0 {
+					t3.SetInt64(1)
+				}
+				vc3, feasible, _ := g.renewal3G(b, t3, rev, tip, tip)
+				b.Count("v1_rhp3_renewals_ending_at_the_hosts_height", 1)
+				if feasible {
+					b.Count("v1_rhp3_renewals_ending_at_the_hosts_height_built", 1)
+					if checkV1Contract(b, vc3.ctor, vc3.fc, c.cs, t3, vc3.params) {
+						submitV1(b, r, c, g, vc3, false)
+					}
+				}
+			}
+		}
 		if len(ops) > 6 {
 			ops = ops[:6]
 		}
